@@ -15,9 +15,9 @@ import (
 type strCtx int
 
 const (
-	ctxAttr strCtx = iota // attribute value, list element, map value
-	ctxKey                // object key
-	ctxLabel              // block label
+	ctxAttr  strCtx = iota // attribute value, list element, map value
+	ctxKey                 // object key
+	ctxLabel               // block label
 )
 
 type speller struct {
